@@ -573,7 +573,7 @@ func judge(b *behaviour, sent []string, o outcome) (sig, what string, drift bool
 	for k, got := range o.IDs {
 		if k < len(b.IDs) {
 			idsCompared++
-			if got.T == "str" && got.N != noNum {
+			if b.IDs[k].T == "str" && b.IDs[k].N != noNum {
 				numStrRead++
 			}
 		}
@@ -829,6 +829,7 @@ func framing(path string, seed int64, splits int) {
 	classes := map[string]int{}
 	errs := map[string]int{}
 	var nbeh, nrun, npipe, fails, drifts, samples, roundtrips, rtFails int
+	perSig := map[string]int{}
 	fails += wfails
 	maxChunks := 0
 
@@ -838,7 +839,7 @@ func framing(path string, seed int64, splits int) {
 			WantRead: len(b.Read), WantErr: b.Err, Got: o}
 		if sig != "" {
 			fails++
-			if fails <= 40 {
+			if perSig[sig]++; perSig[sig] <= 4 { // a few examples per root cause; the summary counts them all
 				vhlib.Fail(sig, what, c)
 			}
 		} else if drift {
@@ -931,7 +932,7 @@ func framing(path string, seed int64, splits int) {
 			roundtrips++
 			if sig, what, _ := judge(&gb, sent, ro); sig != "" {
 				fails++
-				if rtFails++; rtFails <= 10 {
+				if rtFails++; rtFails <= 3 {
 					vhlib.Fail(strings.Replace(sig, "Framing.", "Framing.RoundTrip.", 1), "written by the real stream.Write, read by the real stream.Read: "+what,
 						framingCase{Sent: sent, Variant: "none", Wire: string(rt), Chunks: ch, Mode: "roundtrip", Got: ro})
 				}
